@@ -114,6 +114,42 @@ theorem conforms_orderedP {cr : Cls → Nat} {table : List Edge} {pv : Lk → Op
     cases hp
   · exact hp
 
+/-- an edge whose held lock is private justifies each of its instances that is not a re-lock -/
+theorem edge_sound_ne {cr : Cls → Nat} {e : Edge} {h l : Lk} {pv : Lk → Option Nat} {u : Nat}
+    (hok : edgeOkModRelock cr e = true) (hcov : e.covers h l = true)
+    (hpriv : e.priv = true → pv h = some u) (hne : h ≠ l) :
+    ltLk cr h l ∨ (pv h = some u ∧ h ≠ l) := by
+  simp only [edgeOkModRelock, Bool.or_eq_true] at hok
+  rcases hok with hok | hp
+  · exact edge_sound hok hcov hpriv
+  · exact Or.inr ⟨hpriv hp, hne⟩
+
+/-- a program that conforms to a table admitting `cr` up to re-locking, and that never re-locks,
+follows the lock order `ltLk cr` -/
+theorem conforms_orderedP_noRelock {cr : Cls → Nat} {table : List Edge} {pv : Lk → Option Nat}
+    {u : Nat} {p : List (Op Lk)} (hadm : admitsModRelock cr table = true)
+    (hc : conformsB table pv u p = true) (hn : noRelockB p = true) :
+    OrderedP (ltLk cr) pv u [] p := by
+  simp only [conformsB, Bool.and_eq_true] at hc
+  obtain ⟨hpv, hed⟩ := hc
+  apply orderedP_of_acqEdges p [] (respectsPrivacy_sound hpv)
+  intro hl hhl
+  have := List.all_eq_true.1 hed hl hhl
+  rw [List.any_eq_true] at this
+  obtain ⟨e, he, hx⟩ := this
+  simp only [Bool.and_eq_true, Bool.or_eq_true, Bool.not_eq_true', beq_iff_eq] at hx
+  obtain ⟨hcov, hp⟩ := hx
+  have hok : edgeOkModRelock cr e = true := List.all_eq_true.1 hadm e he
+  have hne : hl.1 ≠ hl.2 := by
+    have := List.all_eq_true.1 hn hl hhl
+    simpa using this
+  apply edge_sound_ne hok hcov _ hne
+  intro hpt
+  rcases hp with hp | hp
+  · rw [hpt] at hp
+    cases hp
+  · exact hp
+
 /-! ### cycles exclude ranks -/
 
 theorem pick_some {table : List Edge} {a b : Cls} (h : (pick table a b).isSome = true) :
@@ -175,6 +211,11 @@ theorem table_no_deadlock {cr : Cls → Nat} {table : List Edge} (hadm : admits 
   intro u p hp
   show HeldOk pv u [] ∧ OrderedP (ltLk cr) pv u [] p
   exact ⟨(fun h hh => nomatch hh), conforms_orderedP hadm (hconf u p hp)⟩
+
+theorem systemNoRelock_sound {progs : List (List (Op Lk))} (h : systemNoRelock progs = true) :
+    ∀ (u : Nat) (p : List (Op Lk)), progs[u]? = some p → noRelockB p = true := by
+  intro u p hp
+  exact List.all_eq_true.1 h p (List.mem_of_getElem? hp)
 
 theorem systemConforms_sound {table : List Edge} {pv : Lk → Option Nat}
     {progs : List (List (Op Lk))} (h : systemConforms table pv progs = true) :
